@@ -8,6 +8,13 @@ def rapid(name, test, quick, thorough, qs=8, ts=16, **kw):
     d.update(kw)
     return d
 
+def fuzz(name, target, seconds=120, replay_part=None):
+    # replay_part: the part (and test) through which a failing case written by the fuzz target is replayed
+    d = {"name": name, "fuzz": target, "tiers": ["thorough"], "fuzztime": {"thorough": seconds}}
+    if replay_part:
+        d["replay_part"] = replay_part
+    return d
+
 def plain(name, test, **kw):
     d = {"name": name, "test": test, "rapid": False, "shards": {"quick": 1, "thorough": 1}}
     d.update(kw)
@@ -163,7 +170,7 @@ PROPS = {
                 "{local, 1-2 hops} x {no / all-unknown / partially-unknown process}. Non-trivial = at least one unsafe-only token and one declared-safe token in the "
                 "tree and a hostile atom inside an unsafe string (or the regular alphabet). Distinct = hash of the case JSON.",
         "assumptions": ["a leak is detected by token search; tokens are ASCII and survive escaping, quoting and JSON encoding (JSON is decoded before the search)"],
-        "parts": [rapid("taint", "TestProp", 12000, 200000)],
+        "parts": [rapid("taint", "TestProp", 12000, 200000), fuzz("native-fuzz", "FuzzTaint", replay_part="taint")],
     },
     "C06": {
         "pkg": "c06",
@@ -178,7 +185,7 @@ PROPS = {
                 "x variant {local, decoded, opaque}. Non-trivial = a foreign (non-SafeFormatter) layer between two library layers, or a hostile atom at a string "
                 "boundary. Distinct = hash of the case JSON.",
         "assumptions": ["marker runes are U+2039/U+203A as defined by cockroachdb/redact"],
-        "parts": [rapid("grammar", "TestProp", 24000, 400000)],
+        "parts": [rapid("grammar", "TestProp", 24000, 400000), fuzz("native-fuzz", "FuzzGrammar", replay_part="grammar")],
     },
     "C12": {
         "pkg": "c12",
@@ -212,7 +219,7 @@ PROPS = {
                 "hash of the grid point. Part mutations: rapid-generated trees over hostile strings, encoded, then 1-4 drawn mutations; non-trivial = at least 2 "
                 "spec nodes.",
         "assumptions": ["wire messages are structurally complete (every nested error has a leaf or a wrapper set)"],
-        "parts": [plain("fault-grid", "TestGrid", shards={"quick": 16, "thorough": 16}), rapid("mutations", "TestMutations", 8000, 200000)],
+        "parts": [plain("fault-grid", "TestGrid", shards={"quick": 16, "thorough": 16}), rapid("mutations", "TestMutations", 8000, 200000), fuzz("native-fuzz", "FuzzDecode", 180, replay_part="fuzz"), plain("fuzz", "TestFuzzReplay", tiers=[])],
         "timeout": {"quick": 1200, "thorough": 7200},
     },
     "C10": {
